@@ -2,11 +2,13 @@ package checks
 
 import (
 	"bytes"
+	"context"
 	"encoding/base64"
 	"encoding/json"
 	"fmt"
 	"math/rand"
 	"os"
+	"os/exec"
 	"path/filepath"
 	"reflect"
 	"sort"
@@ -446,6 +448,10 @@ func bugMutations() []hostileMut {
 	ms = append(ms, hostileMut{Name: "rule:op-of-other-author-in-pack", Class: "unclassified", Apply: func(h *hostileHistory, at int) {}})
 	// a perfectly valid history whose root differs from the root of the bug the victim holds under the same id
 	// (same create operation, other clocks): only used with the local situation "unrelated"
+	// (only used with the local situation "diverged": see runHostileCase)
+	ms = append(ms, hostileMut{Name: "foreign:replays-an-operation-of-the-local-branch", Class: "unclassified", NonRoot: true, Apply: func(h *hostileHistory, at int) {
+		h.Commits[at].PackExtra = map[string]any{"zz_replay": true}
+	}})
 	ms = append(ms, hostileMut{Name: "foreign:unrelated-root-same-id", Class: "must-reject", RootOnly: true, Apply: func(h *hostileHistory, at int) {
 		h.Commits[0].Entries = stdEntries(1, 7)
 	}})
@@ -517,6 +523,11 @@ func bugMutations() []hostileMut {
 		ei := len(h.Commits) - 1
 		merge := commitSpec{Entries: stdEntries(uint64(len(h.Commits)+5), 0), Parents: []int{ei - 1, ei}}
 		h.Commits = append(h.Commits, merge)
+	}})
+	// a commit that lists the same parent twice, with an empty pack (read as an odd but valid merge commit)
+	ms = append(ms, hostileMut{Name: "commit:same-parent-twice", Class: "unclassified", NonRoot: true, Apply: func(h *hostileHistory, at int) {
+		extra := commitSpec{Entries: stdEntries(uint64(len(h.Commits)+3), 1), Parents: []int{len(h.Commits) - 1, len(h.Commits) - 1}}
+		h.Commits = append(h.Commits, extra)
 	}})
 	ms = append(ms, hostileMut{Name: "commit:merge-with-ops", Class: "must-reject", NonRoot: true, Apply: func(h *hostileHistory, at int) {
 		if at >= 1 {
@@ -724,6 +735,15 @@ func runHostileCase(c HostileCase) HostileResult {
 		res.HarnessError = err.Error()
 		return res
 	}
+	remoteName := "evil"
+	if c.API == "termui" {
+		// the terminal UI always pulls from "origin"
+		remoteName = "origin"
+		if err := victim.Tested.AddRemote("origin", evil.Tested.GetLocalRemote()); err != nil {
+			res.HarnessError = err.Error()
+			return res
+		}
+	}
 	w := &world.World{}
 	// victim's own world: an author, two bugs
 	if va, err := victim.NewAuthor("victim"); err != nil {
@@ -847,6 +867,29 @@ func runHostileCase(c HostileCase) HostileResult {
 		}
 		// the hostile commit goes on top of the valid prefix
 		hist.Commits = full
+		if c.Mut == "foreign:replays-an-operation-of-the-local-branch" {
+			if c.Local != "diverged" {
+				res.Noop = true
+				return res
+			}
+			// the remote branch repeats, byte for byte, the operation the victim added on its own branch: each
+			// branch is valid on its own, together they hold the same operation twice
+			lh, ok, err := gitraw.ReadRef(victim.Repo, "refs/bugs/"+cid)
+			if !ok || err != nil || len(lh.Commits[lh.Head].Ops) == 0 {
+				res.HarnessError = fmt.Sprintf("victim's own branch: %v", err)
+				return res
+			}
+			var op map[string]any
+			d := json.NewDecoder(bytes.NewReader(lh.Commits[lh.Head].Ops[0].Raw))
+			d.UseNumber()
+			if err := d.Decode(&op); err != nil {
+				res.HarnessError = "victim's operation: " + err.Error()
+				return res
+			}
+			last := &hist.Commits[len(hist.Commits)-1]
+			last.Ops = []map[string]any{op}
+			last.Author = map[string]any{"id": victim.Authors[0].Id().String()}
+		}
 	}
 	at := c.At
 	if at >= len(hist.Commits) {
@@ -894,6 +937,23 @@ func runHostileCase(c HostileCase) HostileResult {
 	if c.Place == "local" || len(hist.Commits) <= len(reuse) {
 		reuse = nil
 	}
+	// the hostile remote also serves perfectly valid bugs (their ids sort before and after the hostile ref by chance):
+	// whatever happens to the hostile entity, a returned pull must have merged these
+	var companions []entity.Id
+	if c.Place != "local" {
+		for k := 0; k < 4; k++ {
+			vb, _, err := bug.Create(hauthor, int64(1_650_100_000+k), fmt.Sprintf("valid companion %d", k), "a valid bug of the same remote", nil, nil)
+			if err == nil {
+				err = vb.Commit(evil.Repo)
+			}
+			if err != nil {
+				res.HarnessError = "companion bug: " + err.Error()
+				return res
+			}
+			companions = append(companions, vb.Id())
+			allowedNewRefs["refs/bugs/"+vb.Id().String()] = true
+		}
+	}
 	allHashes, cid, err := writeHostileReuse(target, hauthor.Id().String(), hist, reuse)
 	if err != nil {
 		res.HarnessError = "write hostile: " + err.Error()
@@ -929,7 +989,55 @@ func runHostileCase(c HostileCase) HostileResult {
 	before := captureLocalView(victim)
 
 	var status, reason string
-	if c.API == "cache" {
+	if c.API == "termui" {
+		// the terminal UI in a pseudo terminal (tmux): pull with the 'i' key
+		screen, stderr, exited, exercised := runTermuiPull(victim.Dir)
+		if err := victim.Reopen(); err != nil {
+			res.HarnessError = "reopen after the termui: " + err.Error()
+			return res
+		}
+		if !exercised {
+			res.HarnessError = "termui not exercised: " + screen
+			return res
+		}
+		if strings.Contains(stderr, "goroutine ") && (strings.Contains(stderr, "panic:") || strings.Contains(stderr, "fatal error:")) {
+			fail("termui-crash:"+mutKey(c.Mut)+":"+siteFn(mon.PanicSite(stderr)), fmt.Sprintf("the terminal UI crashed while pulling hostile remote data (%s at commit %d):\n%s", c.Mut, at, mon.CrashExcerpt(stderr)))
+			status, reason = "crash", "termui died"
+		} else if exited {
+			res.HarnessError = "termui exited without a crash report: " + c15LastLine(stderr)
+			return res
+		} else {
+			now, _ := gitraw.RefTable(victim.Repo, "refs/bugs/")
+			if h, ok := now[localRef]; ok && h != before.Refs[localRef] {
+				status = "accepted"
+			} else {
+				status, reason = "invalid", "termui pull"
+			}
+		}
+	} else if c.API == "cli" {
+		// the command-line client, a process of its own
+		out, code, timedOut := runGitBugCLI(victim.Dir, "pull", "evil")
+		if err := victim.Reopen(); err != nil {
+			res.HarnessError = "reopen after the CLI: " + err.Error()
+			return res
+		}
+		switch {
+		case timedOut:
+			res.HarnessError = "git-bug pull did not finish"
+			return res
+		case strings.Contains(out, "goroutine ") && (strings.Contains(out, "panic:") || strings.Contains(out, "fatal error:")):
+			fail("cli-crash:"+mutKey(c.Mut)+":"+siteFn(mon.PanicSite(out)), fmt.Sprintf("`git-bug pull` crashed on hostile remote data (%s at commit %d):\n%s", c.Mut, at, mon.CrashExcerpt(out)))
+			status, reason = "crash", "exit "+fmt.Sprint(code)
+		default:
+			// the verdict on the hostile entity is read from the local ref: created or moved = accepted
+			now, _ := gitraw.RefTable(victim.Repo, "refs/bugs/")
+			if h, ok := now[localRef]; ok && h != before.Refs[localRef] {
+				status = "accepted"
+			} else {
+				status, reason = "invalid", fmt.Sprintf("exit %d: %s", code, c15LastLine(out))
+			}
+		}
+	} else if c.API == "cache" {
 		rc, err := cache.NewRepoCacheNoEvents(victim.Repo)
 		if err != nil {
 			res.HarnessError = "cache open: " + err.Error()
@@ -973,8 +1081,20 @@ func runHostileCase(c HostileCase) HostileResult {
 	}
 	res.Status, res.Reason = status, reason
 	after := captureLocalView(victim)
+	if status != "fetch-error" && status != "crash" {
+		for _, id := range companions {
+			// (when the fetch itself failed nothing was received: only entities whose remote-tracking ref exists count)
+			if ok, _ := victim.Repo.RefExist("refs/remotes/" + remoteName + "/bugs/" + id.String()); !ok {
+				continue
+			}
+			if _, ok := after.Refs["refs/bugs/"+id.String()]; !ok {
+				fail("valid-entity-of-the-same-remote-not-merged:"+c.API, fmt.Sprintf("the pull (%s API) returned, but valid bug %s served by the same remote as the hostile entity (%s) was not merged", c.API, id.Human(), c.Mut))
+				break
+			}
+		}
+	}
 
-	rejected := status == "invalid" || status == "fetch-error" || status == "no-result"
+	rejected := status == "invalid" || status == "fetch-error" || status == "no-result" || status == "crash" // (a crash is reported on its own)
 	switch res.Class {
 	case "must-reject":
 		if !rejected {
@@ -1006,6 +1126,86 @@ func runHostileCase(c HostileCase) HostileResult {
 		}
 	}
 	return res
+}
+
+// runTermuiPull starts `git-bug termui` inside a detached tmux session of its own server, waits for the bug table,
+// presses 'i' (pull from the default remote "origin"... the termui pulls from "origin") and waits for the pull to end
+// ("done" in the message popup) or for the program to die. Waiting only decides when to look; on a timeout the case
+// is reported as not exercised.
+func runTermuiPull(dir string) (screen, stderr string, exited, exercised bool) {
+	if _, err := exec.LookPath("tmux"); err != nil {
+		return "tmux is not installed", "", false, false
+	}
+	sock := fmt.Sprintf("vh-termui-%d", os.Getpid())
+	errFile, exitFile := filepath.Join(dir, "..", "termui.err"), filepath.Join(dir, "..", "termui.exit")
+	_ = os.Remove(errFile)
+	_ = os.Remove(exitFile)
+	tm := func(args ...string) (string, error) {
+		cmd := exec.Command("tmux", append([]string{"-L", sock}, args...)...)
+		cmd.Env = append(os.Environ(), "TERM=xterm")
+		out, err := cmd.CombinedOutput()
+		return string(out), err
+	}
+	defer func() { _, _ = tm("kill-server") }()
+	sh := fmt.Sprintf("%s termui 2>%s; echo $? >%s", filepath.Join(os.Getenv("VERIF_BIN"), "git-bug"), errFile, exitFile)
+	if out, err := tm("new-session", "-d", "-s", "t", "-x", "160", "-y", "45", "-c", dir, sh); err != nil {
+		return "tmux new-session: " + out + err.Error(), "", false, false
+	}
+	wait := func(cond func(pane string) bool) (string, bool) {
+		pane := ""
+		for i := 0; i < 300; i++ {
+			pane, _ = tm("capture-pane", "-p", "-t", "t")
+			if _, err := os.Stat(exitFile); err == nil {
+				return pane, true
+			}
+			if cond(pane) {
+				return pane, true
+			}
+			time.Sleep(100 * time.Millisecond)
+		}
+		return pane, false
+	}
+	pane, ok := wait(func(p string) bool { return strings.Contains(p, "Showing ") })
+	if _, err := os.Stat(exitFile); err == nil {
+		b, _ := os.ReadFile(errFile)
+		return pane, string(b), true, true
+	}
+	if !ok {
+		return "the bug table did not appear: " + c15LastLine(pane), "", false, false
+	}
+	if out, err := tm("send-keys", "-t", "t", "i"); err != nil {
+		return "tmux send-keys: " + out, "", false, false
+	}
+	pane, ok = wait(func(p string) bool { return strings.Contains(p, "done") })
+	b, _ := os.ReadFile(errFile)
+	if _, err := os.Stat(exitFile); err == nil {
+		return pane, string(b), true, true
+	}
+	if !ok {
+		return "the pull did not finish: " + c15LastLine(pane), string(b), false, false
+	}
+	return pane, string(b), false, true
+}
+
+// runGitBugCLI runs the git-bug binary built from the tree under test in dir.
+func runGitBugCLI(dir string, args ...string) (out string, code int, timedOut bool) {
+	ctx, cancel := context.WithTimeout(context.Background(), 120*time.Second)
+	defer cancel()
+	cmd := exec.CommandContext(ctx, filepath.Join(os.Getenv("VERIF_BIN"), "git-bug"), args...)
+	cmd.Dir = dir
+	var buf bytes.Buffer
+	cmd.Stdout, cmd.Stderr = &buf, &buf
+	err := cmd.Run()
+	if ctx.Err() != nil {
+		return buf.String(), -1, true
+	}
+	if err != nil {
+		if ee, ok := err.(*exec.ExitError); ok {
+			return buf.String(), ee.ExitCode(), false
+		}
+		return buf.String() + err.Error(), 127, false
+	}
+	return buf.String(), 0, false
 }
 
 func safeCompile(b *bug.Bug) (err error) {
@@ -1197,6 +1397,9 @@ func c07Cases(r *mon.Run) []HostileCase {
 					api = "cache"
 				}
 				add(HostileCase{Entity: "bug", Mut: m.Name, Len: ln, At: at, Local: "absent", API: api, Place: "remote"})
+				if (r.Thorough() || ln == 1 || strings.HasPrefix(m.Name, "ref:")) && at == ln-1 && (idx%3 == 1 || strings.HasPrefix(m.Name, "ref:") || r.Thorough() && idx%2 == 1) {
+					add(HostileCase{Entity: "bug", Mut: m.Name, Len: ln, At: at, Local: "absent", API: "cli", Place: "remote"})
+				}
 				// (placing a history under the name of the victim's own bug would simply overwrite that bug's ref)
 				if (r.Thorough() || idx%3 == 0) && m.Name != "ref:name-of-an-existing-local-bug" {
 					add(HostileCase{Entity: "bug", Mut: m.Name, Len: ln, At: at, Local: "absent", API: "entity", Place: "local"})
@@ -1216,6 +1419,15 @@ func c07Cases(r *mon.Run) []HostileCase {
 				}
 				add(HostileCase{Entity: "bug", Mut: m.Name, Len: ln, At: ln, Local: loc, API: api, Place: "remote"})
 			}
+		}
+	}
+	// the terminal UI as the pulling client (the hostile remote must be called "origin" for it: see runHostileCase)
+	for _, mn := range []string{"ref:name-differs-from-content-id", "ref:name-not-an-id", "optype:unknown-99", "pack:not-json", "base:unknown-field", "label:added-twice-then-removed"} {
+		add(HostileCase{Entity: "bug", Mut: mn, Len: 2, At: 1, Local: "absent", API: "termui", Place: "remote"})
+	}
+	for _, ln := range []int{1, 2} {
+		for _, api := range []string{"entity", "cache"} {
+			add(HostileCase{Entity: "bug", Mut: "foreign:replays-an-operation-of-the-local-branch", Len: ln, At: ln, Local: "diverged", API: api, Place: "remote"})
 		}
 	}
 	for _, ln := range []int{1, 2, 3} {
